@@ -442,6 +442,12 @@ def check_pl(run, cid, w, mpath, exp, patterns, spell, rnd, limit, kinds=("edit"
             w.restore(p)
         vis = {p.replace(os.sep, "/") for p, k in W.visible_tree(w.root, patterns).items() if k == "f"}
         covered = vis <= set(exp)
+    # "the unchanged tree" = every byte as first sealed: an altered file that the patterns hide can still be the target of a
+    # visible symbolic link (tree `links`), so hidden altered files are restored as well before the unchanged tree is verified
+    for p in sorted(w.pristine):
+        fp = w.p(p)
+        if p not in changed and os.path.isfile(fp) and open(fp, "rb").read() != w.pristine[p][0]:
+            w.restore(p)
     code, out, exc, args = vpl(w, mpath, spell)
     if covered and (code != 0 or exc is not None):
         run.violation(cid, f"verify {args[:1]} -pl on the unchanged tree exits {code} ({exc!r}): {out[-400:]}", f"{wclass}/unchanged-rejected", inp={"args": args})
